@@ -12,5 +12,5 @@ INIT Init
 NEXT Next
 VIEW View
 CHECK_DEADLOCK FALSE
-INVARIANTS TypeOK BoundOK ForgetSound ExpiryCovers
-PROPERTIES Retention DecisionOK PrefixExempt RefusalInert Independence ChargeOnce
+INVARIANTS TypeOK BoundOK ForgetSound ExpiryCovers Rested
+PROPERTIES Retention DecisionOK PrefixExempt RefusalInert Independence ChargeOnce Replenish
